@@ -1349,6 +1349,10 @@ class ChunkedEncoder:
         """
         if self.transport is None:
             raise ExcessWrite()
+        if not data:
+            # A zero-length chunk is the last-chunk marker; an empty write
+            # must not end the request body.
+            return
         self.transport.writeSequence(
             (networkString("%x\r\n" % len(data)), data, b"\r\n")
         )
@@ -1357,7 +1361,9 @@ class ChunkedEncoder:
         """
         Indicate that the request body is complete and finish the request.
         """
-        self.write(b"")
+        if self.transport is None:
+            raise ExcessWrite()
+        self.transport.write(b"0\r\n\r\n")
         self.transport.unregisterProducer()
         self._allowNoMoreWrites()
 
